@@ -429,7 +429,9 @@ class TableCacheWorld:
         for st in ["valid", "missing", "stale_foreign", "old_version"]:
             # the process is the command-line tool (first contact with the library = importing the CLI module)
             cells.append((st, False, 2, ("cli",)))
-        for st in ["missing", "stale_foreign"]:
+        for st in ["missing", "missing", "missing", "stale_foreign", "stale_foreign"]:
+            # directory mode of the command (repeated: if the tool works on several files at once, what happens to the
+            # cache while it is being rebuilt is a matter of timing)
             cells.append((st, False, 2, ("cli_dir",)))
         for st in ["valid", "missing", "stale_foreign"]:
             # leftovers of an older release next to the cache (foreign lextab.py, parser.out)
